@@ -929,6 +929,8 @@ SEEDS = [
     "Bearer ", "a=b; c=\"d\\\"e\"; \xff=\xfe", "a=\"\\377\\37\\3\"", "a=\"\\303\\251\\303\"", "\xc3\xa9=\xc3; \xe2\xa2\xac",
     "x=%FF&y=%C3%A9&%=%%", "a=\xff&b=\xc3", "a:b", "[::1", "a]", "[::1]:x", "localhost:99999999999", "a..b", ".", "a" * 64,
     "xn--a.b", "xn--\xe9", "\xe9.example.com:80", "Mon, 01 Jan 2000 00:00:00 +9999999999999", "Mon, 01 Jan 2000 00:00:00 -9999",
+    # dates at the ends of the datetime range with an offset that pushes the UTC instant over the edge (seed C07-5)
+    "Fri, 31 Dec 9999 23:59:59 -0001", "Fri, 31 Dec 9999 23:00:00 EST", "Mon, 01 Jan 0001 00:00:00 +0100", "Fri, 31 Dec 9999 23:59:59 GMT",
     "Mon, 99 Jan 2000 99:99:99 GMT", "1 Jan 0000 00:00:00 GMT", "Mon, 01 Jan 99999 00:00:00 GMT", "01 Jan 2000 00:00 +2400",
     "bytes=0-", "bytes=-0", "bytes=-", "bytes=1-0", "bytes=0-0,1-1,", "bytes=99999999999999999999999-", "bytes=a-b", "bytes=\xb2-\xb3",
     "bytes 0-0/0", "bytes */*", "bytes 1-0/1", "bytes 0-\xb2/*", "bytes \xb2-3/4", "items=0-1", "=0-1", "bytes=0-1=",
